@@ -268,6 +268,16 @@ pub fn set_instance() -> String {
     tok
 }
 
+/// The same, for callers that may run after (or without) `set_instance`: sets the identity if none is set yet.
+pub fn ensure_instance() {
+    static ONCE: std::sync::Once = std::sync::Once::new();
+    ONCE.call_once(|| {
+        let _ = guarded(|| {
+            let _ = set_instance();
+        });
+    });
+}
+
 static HUNG: std::sync::atomic::AtomicUsize = std::sync::atomic::AtomicUsize::new(0);
 
 /// A session that never gives control back (it spins inside one poll) cannot be interrupted in-process: every case
